@@ -187,7 +187,7 @@ def spanRowQ (W : Rat) : List Rat := [if W = 0 then 17 / 2 else W]
 def spanRow (W : Rat) : List Int := (spanRowQ W).map twip
 
 /-- footnote / source rendered as table: `_col_widths(col_rel_width, col_width)` and one cell. -/
-def footRowQ (fw : List Rat) (W : Rat) : Except Err (List Rat) := rowQ (colWidths fw W) 1
+def footRowQ (fw : List Rat) (W : Rat) : Except Err (List Rat) := rowQ ((colWidths fw W).getLast?.toList) 1
 def footRow (fw : List Rat) (W : Rat) : Except Err (List Int) := toTwips (footRowQ fw W)
 
 /-! ## a table section as the property sees it -/
